@@ -251,6 +251,78 @@ def _normalise_blocks(blocks):
         b['events'] = out
 
 
+_CMP_OPS = ('==', '!=', '<', '>', '<=', '>=')
+
+
+def _bool_value_expr(e):
+    """e (without parens / casts) if it is a comparison, possibly under `!`; else None."""
+    x = e
+    while isinstance(x, dict) and x.get('k') in ('paren', 'cast') and isinstance(x.get('e'), dict):
+        x = x['e']
+    y = x
+    while isinstance(y, dict) and y.get('k') == 'un' and y.get('op') == '!':
+        y = y['e']
+        while isinstance(y, dict) and y.get('k') in ('paren', 'cast') and isinstance(y.get('e'), dict):
+            y = y['e']
+    if isinstance(y, dict) and y.get('k') == 'bin' and y.get('op') in _CMP_OPS:
+        # only comparisons over locals, parameters, constants and call results: a condition over memory
+        # (members, subscripts, dereferences) is left alone
+        for z in walk(y):
+            if z.get('k') in ('member', 'sub') or (z.get('k') == 'un' and z.get('op') == '*'):
+                return None
+            if z.get('k') == 'ref' and z.get('kind') not in ('local', 'param'):
+                return None
+        return x
+    return None
+
+
+def _split_bool_assigns(blocks):
+    """`flag = (a < b);` is rewritten as the diamond `if (a < b) flag = 1; else flag = 0;` so that
+    a condition kept in a local behaves like the branch it abbreviates (same semantics, and every
+    path-sensitive rule sees the comparison as an edge)."""
+    nxt = max(b['id'] for b in blocks) + 1 if blocks else 0
+    out = list(blocks)
+    work = list(blocks)
+    while work:
+        b = work.pop()
+        for i, ev in enumerate(b['events']):
+            tgt = rhs = None
+            if ev['ev'] == 'assign' and ev['e'].get('op') == '=' and ev['e']['l'].get('k') == 'ref' \
+                    and ev['e']['l'].get('kind') == 'local':
+                tgt, rhs = ev['e']['l'], ev['e']['r']
+            elif ev['ev'] == 'decl' and ev.get('init') is not None and ev['var'].get('kind') == 'local':
+                tgt, rhs = ev['var'], ev['init']
+            if tgt is None:
+                continue
+            cond = _bool_value_expr(rhs)
+            if cond is None:
+                continue
+            bt, bf, bc = nxt, nxt + 1, nxt + 2
+            nxt += 3
+            cont = {k: v for k, v in b.items() if k not in ('id', 'events', 'case', 'label', 'label_line')}
+            cont['id'] = bc
+            cont['events'] = b['events'][i + 1:]
+            pre = b['events'][:i]
+            if ev['ev'] == 'decl':
+                d0 = dict(ev)
+                d0['init'] = None
+                pre = pre + [d0]
+
+            def setev(v, ev=ev, tgt=tgt):
+                return {'ev': 'assign', 'line': ev['line'], 'split_bool': True,
+                        'e': {'k': 'assign', 'op': '=', 'l': dict(tgt), 'r': {'k': 'int', 'v': v}}}
+            b['events'] = pre
+            b['succs'] = [bt, bf]
+            b['term'] = {'cond': cond, 'kind': 'IfStmt', 'line': ev['line'], 'split_bool': True}
+            b.pop('noreturn', None)
+            tb = {'id': bt, 'events': [setev(1)], 'succs': [bc]}
+            fb = {'id': bf, 'events': [setev(0)], 'succs': [bc]}
+            out.extend([tb, fb, cont])
+            work.append(cont)
+            break
+    return out
+
+
 class Function:
     __slots__ = ('name', 'key', 'file', 'line', 'endline', 'static', 'ret', 'params',
                  'noreturn', 'exported', 'blocks', 'entry', 'exit', 'unit', 'variadic',
@@ -269,6 +341,8 @@ class Function:
         self.variadic = d.get('variadic', False)
         self.unit = unit
         _normalise_blocks(d.get('blocks', []))
+        if d.get('blocks') and not os.environ.get('VERIF_NO_BOOLSPLIT'):
+            d['blocks'] = _split_bool_assigns(d['blocks'])
         self.blocks = {b['id']: b for b in d.get('blocks', [])}
         self.entry = d.get('entry')
         self.exit = d.get('exit')
@@ -497,8 +571,19 @@ def _inline_site(f, bid, idx, g, n):
     blk.pop('noreturn', None)
     # the value of the call expression is now the synthetic return variable
 
+    # a helper that is a single `return <pure expression>;` is an expression macro: its value is
+    # that expression (kept as a tree, the way the caller's own statement would have held it)
+    rets = [ev for gb in g.blocks.values() for ev in gb['events'] if ev['ev'] == 'return']
+    pure_expr = None
+    if retvar is not None and len(rets) == 1 and rets[0].get('e') is not None and \
+            not any(x.get('k') in ('call', 'assign') or (x.get('k') == 'un' and x.get('op') in ('++', '--'))
+                    for x in walk(rets[0]['e'])):
+        pure_expr = _map_expr(rets[0]['e'], m)
+
     def r(node):
         if node.get('k') == 'call' and node.get('id') == cid:
+            if pure_expr is not None:
+                return copy.deepcopy(pure_expr)
             return dict(retvar) if retvar is not None else {'k': 'int', 'v': 0}
         return None
     for b in f.blocks.values():
